@@ -41,8 +41,11 @@ theorem C07_julia_unpack_invalid : (templateOf .jl).unpack .jl = .invalid := by 
 /-- **Equivalence (partial).**  For Python, TypeScript and Rust: running the generated straight-line program
     at any time and state returns exactly what `Model.__call__` returns — including when the model's cache
     cannot be built (same error) — for every content satisfying the decidable hypothesis `okC`:
-    no surrogates / data, every variable has an equation and stoichiometries mention variables only (excludes
-    F-C07-3), names are distinct (what `Model` enforces) and not of the form `d<x>dt`.  Variables and
+    no surrogates / data, at least one differential equation (excludes F-C07-3 as it is now: `return ()`) and
+    stoichiometries mention variables only, names are distinct (what `Model` enforces) and not of the form
+    `d<x>dt`.  A variable that no reaction changes is inside the hypothesis since `fix: a variable that no
+    reaction changes gets the derivative zero in generated model code` (the conjunct "every variable has an
+    equation" is gone): the program assigns `d<x>dt = 0` for it and returns one entry per variable.  Variables and
     parameters may be defined by initial assignments (parameters since `fix: generated model code assigns
     parameters that are defined by an initial assignment`; the hypothesis "parameters are plain" is gone).
     One further restriction is a limit of this proof, not a finding class, and is covered by the correspondence
@@ -106,14 +109,16 @@ theorem C07_missing_equation_witness :
 /-- former F-C07-3 witness (repaired by `fix: a variable that no reaction changes gets the derivative zero in
     generated model code`): `z` occurs in no reaction while `x` does; the generated function assigns `dzdt = 0`
     and returns one entry per variable, in the order of the variables, in Python, TypeScript and Rust.  The witness
-    is outside `okC` (the proof of `C07_equiv_partial` covers models where every variable has an equation; this
-    class is covered by the correspondence). -/
+    is now inside `okC`, so `C07_equiv_partial` applies to it. -/
 theorem C07_constant_variable_witness :
     resEq (callRhs wNoEq 0 [3, 1]) (.ok [-6, 0]) = true
     ∧ resEq (genRun [] wNoEq .py [] 0 [3, 1] []) (.ok [-6, 0]) = true
     ∧ resEq (genRun [] wNoEq .ts [] 0 [3, 1] []) (.ok [-6, 0]) = true
     ∧ resEq (genRun [] wNoEq .rs [] 0 [3, 1] []) (.ok [-6, 0]) = true
-    ∧ okC wNoEq = false := by decide +kernel
+    ∧ okC wNoEq = true := by decide +kernel
+
+example : genRun [] wNoEq .rs [] 0 [3, 1] [] = callRhs wNoEq 0 [3, 1] :=
+  C07_equiv_partial wNoEq .rs 0 [3, 1] (by decide) (by decide +kernel) rfl
 
 /-- former F-C07-5 witness (repaired): a parameter defined by an initial assignment is written as a constant
     with the value the model resolved for it; the witness is now inside the hypothesis and the outputs agree.
